@@ -260,22 +260,18 @@ TimerStepConn(h, o, c, large) ==
   ELSE Quiet(o[c])
 
 (* ---------------------------------------------------------------------------------------- *)
-(* history: per-connection RFC state after the step.  The state follows the INPUTS; where the
-   speaker keeps a connection that the RFCs say must be closed (a named deviation: OPEN with an
-   unsupported optional parameter accepted, KEEPALIVE of length 20 accepted) the state follows
-   what the speaker visibly did and the connection is marked tainted. *)
+(* history: per-connection RFC state after the step.  The state follows the INPUTS only. *)
 Apparent(hc, e, now, cfgHold) ==
-  CASE e.ev = "Open" /\ hc.cs = "OpenSent" /\ e.kind \in {"ok", "unsupopt"} ->
+  CASE e.ev = "Open" /\ hc.cs = "OpenSent" /\ e.kind = "ok" ->
          LET n == NegHold(cfgHold, e.hold) IN
          [hc EXCEPT !.cs = "OpenConfirm", !.ocT = now, !.neg = n,
                     !.due = IF KaInt(n) > 0 THEN {now + KaInt(n)} ELSE {},
-                    !.taint = hc.taint \/ e.kind = "unsupopt"]
-    [] (e.ev = "Keepalive" \/ (e.ev = "Garbage" /\ e.kind = "kalen")) /\ hc.cs = "OpenConfirm" ->
+                    !.taint = hc.taint]
+    [] e.ev = "Keepalive" /\ hc.cs = "OpenConfirm" ->
          [hc EXCEPT !.cs = "Established", !.estT = now, !.lastRx = now,
                     !.due = IF KaInt(hc.neg) > 0 THEN hc.due \cup {now + KaInt(hc.neg)} ELSE {},
-                    !.taint = hc.taint \/ e.ev = "Garbage"]
+                    !.taint = hc.taint]
     [] e.ev \in {"Keepalive", "Update"} /\ hc.cs = "Established" -> [hc EXCEPT !.lastRx = now]
-    [] e.ev = "Garbage" /\ e.kind = "kalen" /\ hc.cs = "Established" -> [hc EXCEPT !.lastRx = now, !.taint = TRUE]
     [] OTHER -> hc
 
 SentOpen(oc) == Count(oc.msgs, "OPEN") > 0
@@ -374,27 +370,9 @@ P_NotifClass(cls, h, e, o) == StepClass(h, e, o) = cls => NotifOK(h, e, o)
 P_NoHardResetWithoutN(h, e, o) ==
   ~h.cfg.nbit => \A c \in ConnIds : <<6, 9>> \notin NotifPairs(o[c].msgs)
 
-(* known deviations, each tolerated by exactly one _KF invariant *)
-Dev_OCUnexpected(h, e, o) ==       \* closes without the FSM-error NOTIFICATION
-  LET c == CId(e) IN Quiet(o[c]) /\ o[c].closed /\ Untouched(h, o, Other(c))
-Dev_EstOpen(h, e, o) ==            \* OPEN in Established silently ignored
-  \A c \in ConnIds : Untouched(h, o, c)
-Dev_UnsupOpt(h, e, o) ==           \* treated as a valid OPEN
-  LET c == CId(e) IN
-  \/ ConnOK(o[c], Rx("General", {}, FALSE, FALSE, 1), h.now, {""}) /\ Untouched(h, o, Other(c))
-  \/ c = CO /\ \A x \in ConnIds : Untouched(h, o, x)     \* ... or parked like a valid one (outgoing connection)
-Dev_Spurious(h, e, o) ==           \* the parked administrative Cease fires on the next session
-  LET c == CId(e) IN
-  /\ h.parked # <<>>
-  /\ ConnOK(o[c], Err("General", CeaseOr9(h, "Established", h.parked[1])), h.now, {h.parked[2]})
-  /\ Untouched(h, o, Other(c))
-
-Dev_KaLen(h, e, o) ==              \* treated as a KEEPALIVE
-  LET c == CId(e) IN
-  /\ Untouched(h, o, Other(c))
-  /\ IF h[c].cs = "OpenSent" THEN ConnOK(o[c], Err("General", {<<5, 1>>}), h.now, {""})
-     ELSE \/ Quiet(o[c]) /\ ~o[c].closed
-          \/ h[c].cs = "OpenConfirm" /\ Dev_Spurious(h, e, o)     \* ... and the parked Cease fires
+(* known deviations, each tolerated by exactly one _KF invariant (the five repaired ones - OpenConfirm
+   unexpected message, OPEN in Established, unsupported optional parameter, KEEPALIVE length, stale
+   administrative Cease - are no longer tolerated) *)
 Dev_IdleOpen(h, e, o) ==            \* the completed outgoing connection is parked: no KEEPALIVE until the next Active
   \A c \in ConnIds : Untouched(h, o, c)
 Dev_ManualStopEarly(h, e, o) ==    \* connections in OpenSent / OpenConfirm closed without the Cease
@@ -448,11 +426,6 @@ P_EstablishedOnlyAfterOpenKeepalive(h, e, o, h2) ==
   /\ entered => /\ e.ev = "Keepalive"
                 /\ h[CId(e)].live /\ h[CId(e)].cs = "OpenConfirm" /\ ~h[CId(e)].taint
   /\ o.st = "Established" => \E c \in ConnIds : h2[c].live /\ h2[c].cs = "Established" /\ ~h2[c].taint
-Dev_TaintedEstablished(h, e, o, h2) ==
-  /\ (\E i \in 1..Len(o.wev) : o.wev[i].st = "Established") =>
-        (e.ev \in {"Keepalive", "Garbage"} /\ h[CId(e)].live /\ h[CId(e)].cs = "OpenConfirm")
-  /\ o.st = "Established" => \E c \in ConnIds : h2[c].live /\ h2[c].cs = "Established"
-
 (* -- C07_ReportedMatchesReal: ListPeer and the WatchEvent(peer) stream agree with each other and
       with the state the connections are really in. *)
 ReportedOK(h, e, o, h2, lenient) ==
